@@ -293,11 +293,16 @@ def gen_mixed_case(rng, i):
         if ec in (4, 5):
             return ec, rng.choice([0.0, 0.0, 0.5, 1.5])
         return ec, (rng.choice([2.0, 0.7, 5.0]) if ec >= 6 else 0.0)
+    odt = {}
+
+    def obs_dtype():
+        # the observation's data type is independent of the record's: wider, narrower, int <-> float <-> bool
+        return rng.choice([d for d in ("f32", "f64", "i64", "bool") if d != sdt]) if rng.random() < 0.6 else sdt
     for _ in range(rng.randint(6, 10)):
         tol = rng.choice([0.02, dt * 0.2]) if tdt == "f32" else rng.choice([1e-6, 1e-6, 1e-6, 1e-6, 1e-3, dt * 0.2])
         off = rng.randint(-1, N + 1)
         bad = rng.random() < 0.06
-        kind = rng.choice(["selT", "selT", "selT", "selT", "selT", "selS", "selS", "rtT", "rtT", "rtS", "insT", "insS"])
+        kind = rng.choice(["selT", "selT", "selT", "selT", "selT", "selS", "selS", "rtT", "rtT", "rtS", "rtS", "insT", "insS", "insS"])
         if kind == "selS":
             ic, par = interp()
             ops.append(["selS", tol, off, time(tol, bad), ic, par])
@@ -308,15 +313,21 @@ def gen_mixed_case(rng, i):
         elif kind in ("insS", "rtS"):
             ec, par = extrap()
             t = time(tol, bad)
-            ops.append(["insS", shape, [gen_val_mixed(rng, sdt) for _ in range(n)], tol, off, t, ec, par, rng.random() < 0.5])
+            od = obs_dtype()
+            ops.append(["insS", shape, [gen_val_mixed(rng, od) for _ in range(n)], tol, off, t, ec, par, rng.random() < 0.5])
+            if od != sdt:
+                odt[str(len(ops) - 1)] = od
             if kind == "rtS":
                 rt.append(len(ops) - 1)
                 ops.append(["selS", tol, off, t, rng.choice(match_of(ec, sdt)), par])
         else:
             ec, par = extrap()
             times = [time(tol, bad and rng.random() < 0.3) for _ in range(n)]
-            ops.append(["insT", shape, [gen_val_mixed(rng, sdt) for _ in range(n)], tol, off, shape, times, ec, par,
+            od = obs_dtype()
+            ops.append(["insT", shape, [gen_val_mixed(rng, od) for _ in range(n)], tol, off, shape, times, ec, par,
                         rng.random() < 0.5])
+            if od != sdt:
+                odt[str(len(ops) - 1)] = od
             if kind == "rtT":
                 rt.append(len(ops) - 1)
                 ops.append(["selT", tol, off, shape, times, rng.choice(match_of(ec, sdt)), par])
@@ -325,7 +336,10 @@ def gen_mixed_case(rng, i):
     tol = 0.02 if tdt == "f32" else 1e-6
     for ic in (6, 7):
         ops.append(["selT", tol, rng.randint(0, N), shape + [8], [time(tol, near=True) for _ in range(8 * n)], ic, 0.0])
-    return {"N": N, "dt": dt, "shape": shape, "ops": ops, "rt": rt, "dtype": sdt, "tdtype": tdt, "mixed": True}
+    case = {"N": N, "dt": dt, "shape": shape, "ops": ops, "rt": rt, "dtype": sdt, "tdtype": tdt, "mixed": True}
+    if odt:
+        case["odt"] = odt
+    return case
 
 
 def gen_mixed_cases(rng, n):
@@ -340,6 +354,90 @@ def vtol(case):
     if case.get("dtype", "f64") == "f32":
         return 1e-5, 2e-4      # values rounded to float32 when stored
     return None
+
+
+# ---- optional arguments left out of the call
+# DOCUMENTED defaults, read once from the docstrings of RecordTensor.select / RecordTensor.insert
+# (inferno/core/infrastructure.py) and hard-coded here on purpose - never read from the code at run time:
+#   select(time, interp=None -> nearest, *, tolerance=1e-6, offset=1, interp_kwargs=None)
+#   insert(obs, time, extrap=None -> nearest, *, tolerance=1e-6, offset=0, inplace=False, extrap_kwargs=None)
+DOC_TOL = 1e-6
+DOC_SELECT_OFFSET = 1
+DOC_INSERT_OFFSET = 0
+DOC_INPLACE = False
+DOC_INTERP = 2        # interp_nearest
+DOC_EXTRAP = 3        # extrap_nearest
+
+
+def apply_omissions(case, rng, frac=0.35):
+    """For a fraction of the select / insert operations choose optional arguments that the implementation-side call
+    will NOT pass; the operation itself is rewritten to the documented default of each omitted argument, so the
+    Coq model and the oracle (which only see the operation) use the documented defaults.  Insert + select round-trip
+    pairs are kept consistent (same tolerance, same offset, matching pair)."""
+    ops = case["ops"]
+    omit = {}
+    f32t = case.get("tdtype", "f64") == "f32"       # float32 times need a tolerance above their resolution
+    rts = set(case.get("rt", []))
+
+    def choose(names):
+        names = [x for x in names if not (f32t and x == "tolerance")]
+        k = rng.choice([1, 1, 2, 3, len(names)])
+        return set(rng.sample(names, min(k, len(names))))
+    i = 0
+    while i < len(ops):
+        op = ops[i]
+        k = op[0]
+        pair = i in rts
+        if k not in ("selS", "selT", "insS", "insT") or rng.random() >= frac:
+            i += 2 if pair else 1
+            continue
+        sel = k in ("selS", "selT")
+        if sel:
+            ic_i = len(op) - 2
+            cand = ["tolerance", "offset", "interp"] + (["interp_kwargs"] if op[ic_i] < 4 else [])
+        else:
+            ec_i = len(op) - 3
+            cand = ["tolerance", "offset", "extrap", "inplace"] + (["extrap_kwargs"] if op[ec_i] not in (4, 5, 6, 7) or
+                                                                   (op[ec_i] in (4, 5) and op[ec_i + 1] == 0) else [])
+        om = choose(cand)
+        if sel:
+            if "interp" in om:
+                op[ic_i], op[ic_i + 1] = DOC_INTERP, 0.0
+                om.add("interp_kwargs")
+            if "tolerance" in om:
+                op[1] = DOC_TOL
+            if "offset" in om:
+                op[2] = DOC_SELECT_OFFSET
+        else:
+            if "extrap" in om:
+                op[ec_i], op[ec_i + 1] = DOC_EXTRAP, 0.0
+                om.add("extrap_kwargs")
+            if "tolerance" in om:
+                op[3] = DOC_TOL
+            if "offset" in om:
+                op[4] = DOC_INSERT_OFFSET
+            if "inplace" in om:
+                op[-1] = DOC_INPLACE
+            if pair:
+                # the select of the pair passes everything explicitly, with the values the insert ended up with
+                so = ops[i + 1]
+                so[1], so[2] = op[3], op[4]
+                if "extrap" in om:
+                    so[-2], so[-1] = DOC_INTERP, 0.0
+        omit[str(i)] = sorted(om)
+        i += 2 if pair else 1
+    if omit:
+        case["omit"] = omit
+    return case
+
+
+def drop_op(case, ops, rt, i):
+    """the case without operation i (indices of the round-trip pairs and of the per-operation annotations shifted)"""
+    c = dict(case, ops=ops[:i] + ops[i + 1:], rt=[j - 1 if j > i else j for j in rt if j != i])
+    for key in ("omit", "odt"):
+        if key in case:
+            c[key] = {str(int(j) - 1 if int(j) > i else int(j)): v for j, v in case[key].items() if int(j) != i}
+    return c
 
 
 def exhaustive_cases():
@@ -483,6 +581,17 @@ def extrap_ref(ec, par, x, sa, p, n, dt):
     return x * math.exp(sa * par), x * math.exp((sa - dt) * par)
 
 
+def conv(x, sdt):
+    """an observation element converted to the record's data type (torch .to(dtype) semantics)"""
+    if sdt == "i64":
+        return float(math.trunc(x))
+    if sdt == "bool":
+        return 1.0 if x != 0 else 0.0
+    if sdt == "f32":
+        return r32(x)
+    return x
+
+
 def locate(N, dt, tol, t):
     """The property's own reading of a time, in exact rational arithmetic:
     ('out',) / ('grid', k) / ('between', k, elapsed since the older sample = (k+1)dt - t)"""
@@ -524,14 +633,20 @@ def oracle_case(case, trace):
     srel, sab = vtol(case) or (1e-9, 1e-12)       # scalar vs tensor branch
     rrel, rab = vtol(case) or (1e-7, 1e-9)        # round trip
     late = []            # reported after the select/insert failures of the same case
+    sdt = case.get("dtype", "f64")
+    dtype_bad = []
     for i, (op, ent) in enumerate(zip(case["ops"], trace)):
         out, snap, aux = ent[0], ent[1], ent[2]
-        if len(ent) > 3 and i >= case["restore"]["at"]:
+        if "restore" in case and i >= case["restore"]["at"]:
             # restored record: it must report (and use) the step time it was given, with the same slots
-            if F.dec_float(ent[3]) != dt or ent[4] != case["N"]:
+            if F.dec_float(ent[4]) != dt or ent[5] != case["N"]:
                 if not late:
                     late.append({"step": i, "op": op, "what": "restored-dt", "expected": [dt, case["N"]],
-                                 "got": [F.dec_float(ent[3]), ent[4]]})
+                                 "got": [F.dec_float(ent[4]), ent[5]]})
+        # the record's data type: created by the first push (the observation's), never changed by select / insert
+        if len(ent) > 3 and ent[3] is not None and ent[3] != sdt and not dtype_bad:
+            dtype_bad.append({"step": i, "op": op, "what": "record-dtype-changed", "expected": sdt, "got": ent[3],
+                              "observation_dtype": case.get("odt", {}).get(str(i), sdt)})
         snap = dec_state(snap)
         out = dec_out(out)
         pre, prev = prev, snap
@@ -593,12 +708,12 @@ def oracle_case(case, trace):
             for e in range(n):
                 l = locs[e]
                 if l[0] == "grid":
-                    new.at(off + l[1])[e] = els[e]
+                    new.at(off + l[1])[e] = conv(els[e], sdt)
                 else:
                     kk, sa = l[1], l[2]
                     pe, ne = extrap_ref(ec, par, els[e], sa, h.at(off + kk + 1)[e], h.at(off + kk)[e], dt)
-                    new.at(off + kk + 1)[e] = pe
-                    new.at(off + kk)[e] = ne
+                    new.at(off + kk + 1)[e] = conv(pe, sdt)
+                    new.at(off + kk)[e] = conv(ne, sdt)
             exp = [pre[0], pre[1], 2, pre[3], new.rows]
             if not same(exp, snap, rel, ab):
                 # frame or value?
@@ -620,10 +735,11 @@ def oracle_case(case, trace):
         got = dec_out(o2)[1][2]
         if dec_out(o2)[1][0] == 4:
             got = [g[0] for g in got]
+        els = [conv(x, sdt) for x in els]
         if not same(list(els), got, rrel, rab):
             fails.append({"step": i + 1, "op": case["ops"][i + 1], "what": "roundtrip", "expected": els, "got": got,
                           "pair": [case["ops"][i][-3], case["ops"][i + 1][-2]]})
-    return fails + late
+    return dtype_bad + fails + late
 
 
 def signature(f, case=None):
@@ -634,6 +750,8 @@ def signature(f, case=None):
         sig["restore"] = case["restore"]["via"]
     if case is not None and case.get("mixed"):
         sig["tdtype"] = case.get("tdtype", "f64")
+    if case is not None and "step" in f and str(f["step"]) in case.get("omit", {}):
+        sig["omitted"] = True
     return sig
 
 
@@ -701,6 +819,10 @@ def run(ctx):
     fcases += [c for c in mixed if is_float_case(c)]
     ncases += [c for c in mixed if not is_float_case(c)]
     cases = fcases + ncases
+    orng = random.Random(ctx["seed"] * 32452843 + 11)          # own stream: the cases themselves are as before
+    for c in cases:
+        if c not in corpus:
+            apply_omissions(c, orng)
     impl = F.run_impl(IMPL, {"cases": cases})
     nshort = len([c for c in fcases if not c.get("mixed")])
     model = F.eval_terms(ID, HEADER, [q_case(c) for c in fcases[:nshort]], shard=20 if quick else 100) + \
@@ -752,6 +874,8 @@ def run(ctx):
         "traces_validated_against_impl": len(fcases) - len(mismatches),
         "model_correspondence_cases": len(fcases), "oracle_only_cases": len(ncases),
         "restored_step_time_cases": dict(Counter(c["restore"]["via"] for c in cases if "restore" in c)),
+        "calls_with_omitted_optional_arguments": dict(Counter(nm for c in cases for v in c.get("omit", {}).values() for nm in v)),
+        "insert_observation_dtype_vs_storage": dict(Counter(f"{od} into {c['dtype']}" for c in cases for od in c.get("odt", {}).values())),
         "storage_dtype_distribution": dict(Counter(c.get("dtype", "f64") for c in cases)),
         "mixed_precision_cases": dict(Counter(f"storage {c['dtype']} / times {c['tdtype']}" for c in cases if c.get("mixed"))),
     }
@@ -782,15 +906,13 @@ def minimise(case):
     i = len(ops) - 2
     while i >= 0:
         if not (what == "roundtrip" and i == len(ops) - 2):
-            cand_ops = ops[:i] + ops[i + 1:]
-            cand_rt = [j - 1 if j > i else j for j in rt if j != i]
-            cand = dict(case, ops=cand_ops, rt=cand_rt)
+            cand = drop_op(case, ops, rt, i)
             try:
                 d2 = first_failure(cand)
             except Exception:
                 d2 = None
             if d2 is not None and d2["what"] == what:
-                ops, rt, d = cand_ops, cand_rt, d2
+                case, ops, rt, d = cand, cand["ops"], cand["rt"], d2
         i -= 1
     return dict(case, ops=ops, rt=rt), d
 
